@@ -40,5 +40,27 @@ MCEnvsQ == {Env(l, s[1], s[2], r) : l \in LinksQ, s \in ScriptsQ, r \in {<<>>, <
 
 MCEnvs1 == {Env(<<"healthy", "healthy">>, <<>>, <<OpenReq(0, "c2", "buy", 1)>>, <<>>)}
 
+(***************************************************************************)
+(* C19 scope, exhaustively: every filter x both commands from a rich set of *)
+(* engine states (any mix of untracked / in-flight / open / cancel-in-flight*)
+(* orders, long / short / no position, price known / unknown), one step.    *)
+(***************************************************************************)
+InstA == {[orders |-> [c \in CIDS |-> IF c = "c1" THEN k ELSE "U"], net |-> n, priced |-> p] :
+             k \in Kinds, n \in {0, 2}, p \in BOOLEAN}
+InstB == {[orders |-> [c \in CIDS |-> IF c = "c2" THEN k ELSE "U"], net |-> n, priced |-> TRUE] :
+             k \in {"U", "Open", "CIFo"}, n \in {0, -1}}
+ScopeInit == /\ st \in {[trading |-> "Disabled", conn |-> StInit("Disabled").conn, inst |-> <<a, b, c, d>>] :
+                          a \in InstA, b \in InstB, c \in InstB, d \in InstA}
+             /\ seq = 0 /\ tick = NoTick /\ dl = [e \in 1..NEX |-> {}]
+             /\ last = [ev |-> NoEvent, env |-> NoEnv]
+NonEmptySeqs(S) == {SetToSeq(T) : T \in (SUBSET S) \ {{}}}
+AllFilters == {NoFilter} \cup {F("Exchanges", q) : q \in NonEmptySeqs({0, 1})}
+                         \cup {F("Instruments", q) : q \in NonEmptySeqs({0, 1, 2, 3})}
+                         \cup {F("Underlyings", q) : q \in NonEmptySeqs({0, 2, 3})}
+ScopeEvents == {Ev(a, 0, 0, "", "", "-", 0, FALSE, "-", <<>>, f) : a \in {"CancelOrders", "ClosePositions"}, f \in AllFilters}
+ScopeEnvs == {Env(l, <<>>, <<>>, <<>>) : l \in {<<"healthy", "healthy">>, <<"unhealthy", "healthy">>}}
+ScopeStep == seq = 0 /\ \E ev \in ScopeEvents, env \in ScopeEnvs : Process(ev, env)
+ScopeSpec == ScopeInit /\ [][ScopeStep]_vars
+
 Bound == seq <= MaxSeq
 =============================================================================
